@@ -1,4 +1,106 @@
-(* placeholder while the tie is being validated; theorems follow *)
-From RP Require Import Lib.Base.
-Example placeholder_C04 : True.
-Proof. exact I. Qed.
+(* C04 - Panel ASCII lines decode to exactly the events and information they denote.
+   Only statements here; each closed by [exact] of a lemma from Proofs/.
+
+   Model: Model/DecOut.v (RawPanelASCIIstringsToOutboundMessages AFTER the repair b4c6fa4 of F6:
+          Raw is part of the event regex and its value is read from that regex; TrimExplode).
+   Spec:  Spec/GrammarOut.v: read_out_line classifies EVERY byte string as
+            WF strict reports | Malformed | NonGrammar;
+          line_judgeable l = "l is strictly well-formed, or its keyword / key name is not part of
+          the grammar".  Strictly well-formed covers: flow words; all seven event words with and
+          without edge suffix, ids < 2^32, edges < 2^31, signed / unsigned 32-bit values; map
+          entries; all 29 key names (text values non-empty without LF; numbers < 2^32; booleans
+          0/1; panel types / health names; capability lists in any order with unknown names
+          ignored; address lists with non-empty elements without surrounding white space);
+          SysStat with any subset, order and repetition of the 20 fields; registers.
+          Float fields: canonical decimals with one decimal and at most 4 integer digits
+          (temperatures, |x| < 10000.0) or two decimals and at most 2 integer digits (voltage,
+          |x| < 100.00) - stated in the reader ([read_dec]) and proved by a finite sweep.
+          (The search oracle is wider than these theorems: Spec/SysExactOut.v also judges
+          numerals of any length at float32 precision.)
+   Outside the theorems: the JSON value of _networkConfig (encoding/json oracle). *)
+From RP Require Import Lib.Base Lib.Sexp Lib.Strings Lib.FloatFmt Model.MsgOut Model.EncOut Model.DecOut
+  Spec.DenoteOut Spec.GrammarOut Proofs.OutDecSkel Proofs.OutDecEvent Proofs.OutFloatSweep Proofs.OutDecSys
+  Proofs.OutDecSound Proofs.OutCorollary.
+From Coq Require Import String.
+Open Scope Z_scope.
+
+(* The property, for line lists of any length with non-grammar lines interleaved anywhere: the
+   decoder returns messages whose reports, in order, are exactly the reports the reference
+   reader assigns to the lines, in line order. [np] is the JSON oracle of _networkConfig. *)
+Theorem c04_dec_out_sound : forall (np : bytes -> option bytes) ls,
+  Forall (fun l => line_judgeable l = true) ls ->
+  exists ms, dec_out np ls = Ok ms /\ flat_map den_out ms = flat_map sem_out_line ls.
+Proof. exact dec_out_sound. Qed.
+Print Assumptions c04_dec_out_sound.
+
+(* one line: at most one message, carrying exactly the line's reports *)
+Theorem c04_dec_line_sound : forall (np : bytes -> option bytes) l,
+  line_judgeable l = true ->
+  exists om, dec_out_line np l = Ok om /\
+             match om with Some m => den_out m | None => [] end = sem_out_line l.
+Proof. exact dec_line_sound. Qed.
+Print Assumptions c04_dec_line_sound.
+
+(* a line whose keyword or key name is not part of the grammar never produces an event or a report
+   (all byte strings) *)
+Theorem c04_dec_out_ignores_nongrammar : forall (np : bytes -> option bytes) l,
+  read_out_line l = NonGrammar ->
+  exists om, dec_out_line np l = Ok om /\ match om with Some m => den_out m | None => [] end = [].
+Proof. exact dec_out_ignores_nongrammar. Qed.
+Print Assumptions c04_dec_out_ignores_nongrammar.
+
+(* a Press is reported as a press followed by a release *)
+Theorem c04_press_is_down_then_up : forall (np : bytes -> option bytes) l id e,
+  read_out_line l = WF true [REvent id EDown e; REvent id EUp e] ->
+  exists m, dec_out_line np l = Ok (Some m) /\ den_out m = [REvent id EDown e; REvent id EUp e].
+Proof. exact press_is_down_then_up. Qed.
+Print Assumptions c04_press_is_down_then_up.
+
+(* event lines alone (all seven words incl. Raw, edge suffix, 32-bit values) *)
+Theorem c04_event_lines : forall (np : bytes -> option bytes) r rs,
+  has_lf (str "HWC#" ++ r) = false -> read_event r = WF true rs ->
+  exists om, dec_rest np (str "HWC#" ++ r) = Ok om /\ den_om om = rs.
+Proof. exact event_line_sound. Qed.
+Print Assumptions c04_event_lines.
+
+(* float fields: the stored float32 prints back (rounded half-even at the protocol's precision)
+   to the numeral that was read - all canonical numerals within the digit bounds, both signs *)
+Theorem c04_float_tenths : forall s x, read_dec 1 s = Some (true, x) -> f32_scaled 1 (parse_float32 s) = x.
+Proof. exact tenths_exact. Qed.
+Print Assumptions c04_float_tenths.
+
+Theorem c04_float_hundredths : forall s x, read_dec 2 s = Some (true, x) -> f32_scaled 2 (parse_float32 s) = x.
+Proof. exact hundredths_exact. Qed.
+Print Assumptions c04_float_hundredths.
+
+(* SysStat: any subset / order / repetition of fields, optional final ':' *)
+Theorem c04_sysstat_line : forall v rs,
+  v <> [] -> read_sys v = WF true rs -> [den_sys (ss_scan (split_on 58 v) empty_sys)] = rs.
+Proof. exact sys_line_sound. Qed.
+Print Assumptions c04_sysstat_line.
+
+(* corollary C03 o C04: decoding the encoder's lines, when they are all strictly readable *)
+Theorem c04_dec_enc_out : forall (flat flat_svg : bytes -> bytes) (np : bytes -> option bytes) ms msgs ords,
+  all_some_msgs ms = Some msgs ->
+  Forall (fun m => representable_outb flat flat_svg m = true) msgs ->
+  orders_ok ords msgs ->
+  exists ls, enc_out flat flat_svg ords ms = Ok ls /\
+    (Forall (fun l => line_judgeable l = true) ls ->
+     exists ms', dec_out np ls = Ok ms' /\ reports_equiv (flat_map den_out ms') (map den_out msgs)).
+Proof. exact dec_enc_out. Qed.
+Print Assumptions c04_dec_enc_out.
+
+(* Non-vacuity: a line list with a Press with edge, a Raw event at the 32-bit boundary, a map
+   entry, a permuted capability list with an unknown name, an address list, a SysStat line with a
+   repeated field, a flag register with leading zeros, a flow word, and three lines that are not
+   part of the grammar (an inbound HWCx# line, free text, the empty line) is in the domain, and
+   these are its reports. *)
+Example c04_nonvacuous :
+  forallb line_judgeable demo_lines = true /\
+  flat_map sem_out_line demo_lines =
+  [REvent 5 EDown 2; REvent 5 EUp 2; REvent 4294967295 ERaw 123; RMap 12 3;
+   RCaps [true; false; false; false; false; false; false; false; false; true; false; false; false];
+   RList KLockIP [str "1.2.3.4"; str "5.6.7.8"];
+   RSys 0 567 0 125 [0; 0; 0; 0; 0; 0; 0; 0] [false; false; false; false; false; true; false; false];
+   RReg 1 (str "7") 1; RFlow 3].
+Proof. exact (conj demo_lines_judgeable demo_lines_reports). Qed.
